@@ -2,6 +2,7 @@
    Model: Model/CLI.v (cmd/par/main.go: Go flag parsing as used there, command and extension dispatch,
    result-to-status mapping) over the library models. *)
 From Gopar Require Import Model.Base Model.CRC Model.GoPath Model.FS Model.Par2 Model.Par1 Model.CLI Proofs.CLIFacts Proofs.Par2Facts Proofs.Par2Clean Proofs.Par2Converge Proofs.CLICompose Proofs.Par1RoundTrip Proofs.CLICompose1 Proofs.Par2Converge2.
+From Gopar Require Proofs.CreateContain.
 From Coq Require Import List. Import ListNotations.
 Open Scope N_scope.
 
@@ -165,6 +166,28 @@ Theorem C20_create2_zero_then_verify2_zero : forall md5, (forall x, length (md5 
     fst (cli_run md5 cwd2 vargs (io_init (io_fs st') [])) = 0.
 Proof. exact cli_create2_then_verify2_zero. Qed.
 Print Assumptions C20_create2_zero_then_verify2_zero.
+
+(* the same WITHOUT the premise that no input is the index file or a <base>.*.par2 file: Create refuses such an input
+   (exit status 6, C02_create_parity_input_refused), so a create command that exited 0 had none.  For the absolute
+   current directory of a process and an index path that filepath.Abs leaves unchanged (absolute and clean) *)
+Theorem C20_create2_zero_then_verify2_zero_checked : forall md5, (forall x, length (md5 x) = 16%nat) ->
+  forall cwd args par files p fs st',
+  is_abs cwd = true -> abs_path cwd par = par ->
+  cli_run md5 cwd args (io_init fs []) = (0, st') -> cli_is_create2 args par files p ->
+  let sz := create_slice p in
+  let basedir := dir par in
+  let rels := map (rel_path basedir) (map (abs_path cwd) files) in
+  forall datas st1,
+  Par2.io_reads (map (join2 basedir) rels) (io_init fs []) = (Ok datas, st1) ->
+  N.of_nat sz <= MAXSLICE ->
+  Forall (fun nm : bytes => no_nul nm /\ N.of_nat (length nm) < 2 ^ 32) rels ->
+  Forall (fun d : bytes => wf_bytes d /\ N.of_nat (length d) <= MAXINT) datas ->
+  NoDup (map fi_id (map (fun nd : bytes * bytes => data_file_info md5 sz (fst nd) (snd nd)) (combine rels datas))) ->
+  (forall q, In q (map fst fs) -> vol_pattern (Par2.strip_ext par) q = false) ->
+  forall cwd2 vargs, cli_is_verify2 vargs par ->
+    fst (cli_run md5 cwd2 vargs (io_init (io_fs st') [])) = 0.
+Proof. exact CreateContain.cli_create2_then_verify2_zero_checked. Qed.
+Print Assumptions C20_create2_zero_then_verify2_zero_checked.
 
 (* a successful repair command is followed by a verify command that exits 0 (premises of C14's convergence step) *)
 Theorem C20_repair2_zero_then_verify2_zero : forall md5 cwd args par dbl fs st',
